@@ -488,6 +488,7 @@ def run_quiesce(s, J, op, plan, degenerate, results, counts):
             and s.solver_name in ("AndersonCD", "GroupBCD", "MultiTaskBCD", "GramCD") \
             and s.dname in (None, "Quadratic", "WeightedQuadratic", "QuadraticGroup", "QuadraticMultiTask") \
             and np.isfinite(res["stop_crit"]) and not pr.pen.has_constraint \
+            and float(s.pargs.get("alpha", 0.0) or 0.0) >= 1e-4 * float(plan["family"].get("alpha_max_rm") or 0.0) > 0 \
             and (s.solver_name != "GroupBCD"
                  # (a block step uses one constant per group: a warm start far out along a badly
                  # scaled or nearly collinear direction *inside* a group travels at the pace of the
@@ -499,10 +500,12 @@ def run_quiesce(s, J, op, plan, degenerate, results, counts):
             cold = s.call_solver(knobs, "cold", None, None, op.get("storage", plan.get("storage", "F")),
                                  record=False)
             s.probe("warm_vs_cold_liveness_compared")
+            work = ((cold.get("seam") or {}).get("outer") or 0) if s.solver_name != "GramCD" \
+                else ((cold.get("seam") or {}).get("epochs") or 0) / 50.0
+            # (a cold start that *is* the solution - y = 0, alpha above the critical value - says
+            # nothing about the rate: the cold run must have done some work itself)
             if cold.get("exc") is None and cold.get("stop_crit") is not None \
-                    and claims_convergence(s.solver_name, cold["stop_crit"], tol) \
-                    and (((cold.get("seam") or {}).get("outer") or 0) <= 20 if s.solver_name != "GramCD"
-                         else ((cold.get("seam") or {}).get("epochs") or 0) <= 1000):
+                    and claims_convergence(s.solver_name, cold["stop_crit"], tol) and 2 <= work <= 20:
                 props = ["C05"] + (["C19"] if degenerate else [])
                 out.append(dict(prop=props, oracle="warm_liveness",
                                 sig=sig0 + ("warm_start_exhausts_budget_where_cold_start_converges",),
@@ -510,10 +513,13 @@ def run_quiesce(s, J, op, plan, degenerate, results, counts):
                                             cold_stop_crit=cold["stop_crit"],
                                             cold_outer=(cold.get("seam") or {}).get("outer")),
                                 feat=J.feat(res, dict(n_outer=(res.get("seam") or {}).get("outer")))))
-    if op.get("twin_liveness") and not claimed and np.isfinite(res["stop_crit"]):
+    if op.get("twin_liveness") and not claimed and np.isfinite(res["stop_crit"]) \
+            and s.dname in (None, "Quadratic", "QuadraticSVC") \
+            and res["knobs"].get("ws_strategy", "subdiff") == "subdiff":
         out.extend(judge_twin_liveness(s, J, res, knobs, op, plan, tol))
     if op.get("liveness_scale") and not claimed and pr.pen.convex and gen.get("rho", 1) <= 0.9 \
-            and quad_like and s.dname != "Huber" and pr.n >= pr.p + (1 if res["fi"] else 0) + 1 \
+            and quad_like and s.dname != "Huber" and s.solver_name != "GramCD" \
+            and pr.n >= pr.p + (1 if res["fi"] else 0) + 1 \
             and bool(pr.absX.any(axis=0).all()) and np.isfinite(res["stop_crit"]):
         out.append(dict(prop=["C19"], oracle="liveness_scaled_column",
                         sig=sig0 + ("no_convergence_with_scaled_column",),
